@@ -323,7 +323,13 @@ class Gen:
             kcls.append(self.K("cmat"))
         if op == "vm":
             kcls = [kids[1].cls, kids[0].cls]
-        cls = self.K(kname, *kcls)
+        if op in ("trimm", "trimv"):
+            # prod(to_triangular(A), .): only containers / dense proxies can be viewed as triangular
+            if kids[0].cls != DENSE:
+                raise Unsupported("to_triangular of a non-dense expression")
+            cls = (op,)
+        else:
+            cls = self.K(kname, *kcls)
         reads = set()
         for k in kids:
             reads |= k.reads
@@ -415,6 +421,53 @@ class Gen:
             raise Unsupported("max/min fold over a sparse-iterated expression (F19)")
         return E("V", n, f"({which} {m.txt})", cpp, orc, m.bound, m.dexp, m.reads, cls, False, None, False, m.depth + 1,
                  m.ops + (which,))
+
+    FOLD_REDS = ["sum", "max", "min", "norm_1", "norm_sqr", "norm_inf"]
+
+    def mk_fold(self, red, rows, m):
+        """red(as_rows(M)) / red(as_columns(M)) for the six row-wise reductions of matrix_expression.hpp"""
+        n, k = (m.shape[0], m.shape[1]) if rows else (m.shape[1], m.shape[0])
+        if k == 0 and red in ("max", "min", "norm_inf"):
+            raise Unsupported("max/min of empty rows is undefined")
+        if self.r is not None and red in ("max", "min", "norm_inf") and any(o in m.ops for o in ("diagm", "unit", "sparse")):
+            raise Unsupported("max/min fold over a sparse-iterated expression (F19)")
+        inner = m.cls if red in ("sum", "max", "min") else self.K("mun", m.cls)
+        cls = self.K("sumrows" if rows else "sumcols", inner)
+        d = "rows" if rows else "cols"
+        cpp = f"{red}({'as_rows' if rows else 'as_columns'}({m.cpp}))"
+        orc = f"o_fold(R_{red.upper().replace('_', '')},{'true' if rows else 'false'},{m.orc})"
+        bound, dexp = m.bound, m.dexp
+        if red in ("sum", "norm_1"):
+            bound = max(1, k) * m.bound
+        elif red == "norm_sqr":
+            bound, dexp = max(1, k) * m.bound * m.bound, 2 * m.dexp
+        return E("V", n, f"(fold {red} {d} {m.txt})", cpp, orc, bound, dexp, m.reads, cls, False, None, False, m.depth + 1,
+                 m.ops + (f"fold_{red}_{d}",))
+
+    TRI = {"lower": (False, False), "upper": (True, False), "unit_lower": (False, True), "unit_upper": (True, True)}
+
+    def mk_trimm(self, kind, a, b):
+        """triangular_prod<kind>(A, B) = prod(to_triangular(A, kind), B)   (kernels::trmm)"""
+        up, un = self.TRI[kind]
+        if a.shape[0] != a.shape[1]:
+            raise Unsupported("triangular matrix must be square")
+        k = a.shape[1]
+        e = self.node("M", (a.shape[0], b.shape[1]), "trimm", f"(mm (tri {kind} {a.txt}) {b.txt})",
+                      f"triangular_prod<{kind}>({a.cpp},{b.cpp})",
+                      f"o_mm(o_tri({'true' if up else 'false'},{'true' if un else 'false'},{a.orc}),{b.orc})",
+                      max(1, k) * max(1, a.bound) * b.bound, a.dexp + b.dexp, [a, b], elementwise=False)
+        return e
+
+    def mk_trimv(self, kind, a, v):
+        """triangular_prod<kind>(A, v)   (kernels::trmv)"""
+        up, un = self.TRI[kind]
+        if a.shape[0] != a.shape[1]:
+            raise Unsupported("triangular matrix must be square")
+        k = a.shape[1]
+        return self.node("V", a.shape[0], "trimv", f"(mv (tri {kind} {a.txt}) {v.txt})",
+                         f"triangular_prod<{kind}>({a.cpp},{v.cpp})",
+                         f"o_mv(o_tri({'true' if up else 'false'},{'true' if un else 'false'},{a.orc}),{v.orc})",
+                         max(1, k) * max(1, a.bound) * v.bound, a.dexp + v.dexp, [a, v], elementwise=False)
 
     def mk_concat(self, a, b):
         bd, dx = self._maxb(a, b)
@@ -893,12 +946,19 @@ class Gen:
 
     def render_reduction(self, k, kind, args):
         a = args[0]
-        if kind in ("max", "min", "norm_inf", "mmax", "mmin") and \
+        if kind in ("max", "min", "norm_inf", "mmax", "mmin", "mnorm_1", "mnorm_inf") and \
                 any(o in a.ops for o in ("diagm", "unit", "sparse")) and self.r is not None:
             # F19 (known, no patch): max/min folds over sparse-iterated expressions ignore the implicit zeros;
             # kept in the corpus, not generated
             kind = "sum" if a.kind == "V" else "msum"
-        if kind == "inner_prod":
+        if kind == "frobenius_prod":
+            b = args[1]
+            n1, n2 = a.shape
+            text = f"frobenius_prod {a.txt} {b.txt}"
+            cpp = f"frobenius_prod({a.cpp},{b.cpp})"; orc = f"o_frob({a.orc},{b.orc})"
+            bits = (max(1, n1 * n2) * a.bound * b.bound).bit_length() + a.dexp + b.dexp
+            ops = a.ops + b.ops
+        elif kind == "inner_prod":
             b = args[1]
             n = a.shape
             text = f"inner_prod {a.txt} {b.txt}"
@@ -917,9 +977,10 @@ class Gen:
         else:
             n1, n2 = a.shape
             text = f"{kind} {a.txt}"
-            cpp = {"msum": f"sum({a.cpp})", "mmax": f"max({a.cpp})", "mmin": f"min({a.cpp})", "trace": f"trace({a.cpp})"}[kind]
+            cpp = {"msum": f"sum({a.cpp})", "mmax": f"max({a.cpp})", "mmin": f"min({a.cpp})", "trace": f"trace({a.cpp})",
+                   "mnorm_1": f"norm_1({a.cpp})", "mnorm_inf": f"norm_inf({a.cpp})"}[kind]
             orc = {"msum": f"o_sum({a.orc}.x)", "mmax": f"o_max({a.orc}.x)", "mmin": f"o_min({a.orc}.x)",
-                   "trace": f"o_trace({a.orc})"}[kind]
+                   "trace": f"o_trace({a.orc})", "mnorm_1": f"o_mnorm1({a.orc})", "mnorm_inf": f"o_mnorminf({a.orc})"}[kind]
             bits = (max(1, n1 * n2) * a.bound).bit_length() + 2 * a.dexp
             ops = a.ops
         if bits > MAXBITS:
@@ -1045,11 +1106,14 @@ class CorpusGen(Gen):
         if h == "unit": return self.mk_unit(int(a[0]), int(a[1]), _num(a[2]))
         if h == "cmat": return self.mk_cmat(int(a[0]), int(a[1]), _num(a[2]))
         if h == "concat": return self.mk_concat(B(a[0]), B(a[1]))
+        if h in ("mv", "mm") and isinstance(a[0], list) and a[0][0] == "tri":
+            return (self.mk_trimv if h == "mv" else self.mk_trimm)(a[0][1], B(a[0][2]), B(a[1]))
         if h == "mv": return self.mk_mv(B(a[0]), B(a[1]))
         if h == "vm": return self.mk_vm(B(a[0]), B(a[1]))
         if h == "sumrows": return self.mk_sumrows(B(a[0]))
         if h == "sumcols": return self.mk_sumcols(B(a[0]))
         if h in ("maxrows", "mincols"): return self.mk_foldrows(h, B(a[0]))
+        if h == "fold": return self.mk_fold(a[0], a[1] == "rows", B(a[2]))
         if h == "outer": return self.mk_outer(B(a[0]), B(a[1]))
         if h == "mm": return self.mk_mm(B(a[0]), B(a[1]))
         if h == "repeat": return self.mk_repeat(B(a[0]), int(a[1]))
